@@ -274,7 +274,7 @@ func init() {
 	bfsSystems["c09"] = c09Exec
 	pool.Register("c09store", func(data json.RawMessage) (interface{}, error) { return nil, nil })
 	checks["C09"] = func(tier string) int {
-		run := ev.NewRun("C09", tier, "model_checking")
+		run := newRun("C09", tier, "model_checking")
 		p := pool.New(0)
 		ops := []string{"app:t1:100", "app:t1:200", "app:t2:100", "app:t1:5", "app:t1:abc", "app:t2:3", "app:pre:100", "chg:300", "dup:400", "rev", "mal", "rm", "tick", "restart", "sync",
 			"app:t2:3000000000", "app:t1:4294967396"}
